@@ -204,15 +204,41 @@ def summarize(res, cols, off, full):
     return out
 
 
+def token_data(rows, cols, fields):
+    """structured float64 array; `fields` = [(name, k)]: pixel (r, c) of field `name` holds r*cols + c + 1 + k*rows*cols"""
+    data = np.empty((rows, cols), dtype=[(n, np.float64) for n, _ in fields])
+    base = np.arange(1, rows * cols + 1, dtype=np.float64).reshape(rows, cols)
+    for n, k in fields:
+        data[n] = base + k * rows * cols
+    return data
+
+# ----------------------------------------------------------------------------- histories on one object
+ATTRS = {"raster": {"spotsize": "spotsize", "speed": "speed", "scantime": "scantime"},
+         "spot": {"sx": "spotsize", "sy": "spotsize_y"}}  # abstract key -> attribute of the configuration object
+POOLS = {"spotsize": SPOTSIZES, "speed": SPEEDS, "scantime": SCANTIMES, "sx": SPOTSIZES, "sy": SPOTSIZES}
+
+
+def srr_vox(pairs, M, l0, l1, n):
+    """voxels of the reconstruction (input sizing only)"""
+    size = math.lcm(*[d for _, d in pairs])
+    p = math.lcm(size, M) // M
+    ov = max(o * size // d for o, d in pairs)
+    return (l0 * M * p + ov) * (l1 * M * p + ov) * n
+
+
 class C10(Prop):
     id = "C10"
     anchored = ["src/pewlib/config.py", "src/pewlib/laser.py", "src/pewlib/srr/config.py", "src/pewlib/srr/srr.py"]
-    cases = {"quick": 700, "thorough": 30000}
+    cases = {"quick": 950, "thorough": 38000}
     rule = ("raster/spot configs with parameters from pools of binary-inexact values (0.1*3, 33.3*1.3, 0.007, 1/3 ...), "
             "their products and random decimals; shapes 1..8 (every pixel-aligned rectangle read), medium and up to 4000 per side "
             "(random aligned rectangles incl. own extent, empty, first/last row/column); bounds computed as k*px, as the correctly "
             "rounded exact product, and one ulp above/below; SRR stacks (2..5 crossed layers, mag 1..4 from float-integer triples, "
-            "warm-up, offsets) for extent/pixel = reconstructed shape. Every case is non-trivial; distinct by canonical case hash")
+            "warm-up, offsets) for extent/pixel = reconstructed shape; histories on ONE Laser object (2..5 steps: observe extent / pixel "
+            "sizes / own-extent read / aligned reads, then edit one or several configuration attributes in place, replace the "
+            "configuration object, assign data of another shape, add/remove an element, observe again - each observation against the "
+            "model/spec for the configuration and shape held then) and on ONE SRRLaser object (offsets, equal offsets, warm-up, spot "
+            "size/speed/scan time edited in place, configuration replaced). Every case is non-trivial; distinct by canonical case hash")
     trusted = [
         "float64 multiplication/division are correctly rounded, hence for the generated magnitudes (indices <= 4000) the float "
         "quotient bound/pixel-size is within 5e-7 of the exact quotient (assumption of get_aligned_rect); the model evaluates the exact quotient",
@@ -254,13 +280,132 @@ class C10(Prop):
         c0, c1 = pair(cols)
         return [r0, r1, c0, c1]
 
+    # histories: observe, change the configuration / shape of the SAME object, observe again
+    def gen_obs(self, rng, rows, cols):
+        t = rng.random()
+        if t < 0.4:
+            return {"o": "extent"}
+        if t < 0.7:
+            return {"o": "own"}
+        return {"o": "rect", "rect": self.gen_rect(rng, rows, cols), "modes": [rng.choice(["mul", "mul", "exact", "up", "down"]) for _ in range(4)]}
+
+    def gen_hist(self, rng, tier):
+        cfg = gen_cfg(rng)
+        t = rng.random()
+        if t < 0.5:
+            shape = lambda: (rng.randint(1, 8), rng.randint(1, 8))
+        elif t < 0.88:
+            shape = lambda: (rng.randint(1, 120), rng.randint(1, 120))
+        else:
+            shape = lambda: self.gen_shape(rng, "quick")
+        rows, cols = rows0, cols0 = shape()
+        nel = rng.choice([1, 1, 2])
+        steps = []
+        cur, nf = dict(cfg), nel
+        for i in range(rng.choice([2, 2, 3, 3, 4, 5])):
+            u = rng.random()
+            if i == 0 and u < 0.8:
+                ch = None
+            elif u < 0.40:  # one attribute in place
+                k = rng.choice(sorted(ATTRS[cur["kind"]]))
+                ch = {"op": "set", "attrs": {k: pick(rng, POOLS[k])}}
+            elif u < 0.58:  # several attributes in place
+                keys = sorted(ATTRS[cur["kind"]])
+                keys = [k for k in keys if rng.random() < 0.7] or keys
+                ch = {"op": "set", "attrs": {k: pick(rng, POOLS[k]) for k in keys}}
+            elif u < 0.72:
+                ch = {"op": "replace", "cfg": gen_cfg(rng)}
+            elif u < 0.86:
+                nr, nc = shape()
+                if rng.random() < 0.3:
+                    nr, nc = rng.choice([(cols, rows), (rows, nc), (nr, cols), (rows + 1, cols), (rows, max(1, cols - 1))])
+                ch = {"op": "data", "rows": nr, "cols": nc}
+            elif u < 0.91:
+                ch = {"op": "add"}
+            elif u < 0.96:
+                ch = {"op": "remove", "index": rng.randint(0, 2)}
+            else:
+                ch = None
+            if ch is not None:  # follow the state, for rectangles that fit and sizes that stay small
+                if ch["op"] == "set":
+                    cur.update(ch["attrs"])
+                elif ch["op"] == "replace":
+                    cur = dict(ch["cfg"])
+                elif ch["op"] == "data":
+                    rows, cols = ch["rows"], ch["cols"]
+                elif ch["op"] == "add":
+                    if nf >= 3 or rows * cols > 400_000:
+                        ch = None
+                    else:
+                        nf += 1
+                elif ch["op"] == "remove":
+                    nf = max(1, nf - 1)
+            obs = [self.gen_obs(rng, rows, cols) for _ in range(rng.choice([1, 1, 2, 3]))]
+            if rng.random() < 0.1:
+                obs = []
+            steps.append({"change": ch, "obs": obs, "element": rng.choice([None, 0, 1])})
+        if not steps[-1]["obs"]:
+            steps[-1]["obs"] = [{"o": "extent"}, {"o": "own"}]
+        return {"kind": "hist", "cfg": cfg, "rows": rows0, "cols": cols0, "nel": nel, "steps": steps}
+
+    def gen_srr_hist(self, rng):
+        base = gen_srr(rng, max_vox=6000)
+        M, n = base["mag"], base["n"]
+        (l0, s0), (l1, s1) = base["shapes"]
+        wmax = max(0, min(s0 - l1 * M, s1 - l0 * M))  # warm-up samples the layers can afford
+        cur = {k: base[k] for k in ("spotsize", "speed", "scantime", "warmup", "pairs", "mag")}
+
+        def new_pairs(equal):
+            for _ in range(50):
+                if equal:
+                    w = rng.choice([1, 2, 3, 3, 4, 4, 5])
+                    pairs = [[i, w] for i in range(w)]
+                else:
+                    pairs = gen_pairs(rng)
+                if srr_vox(pairs, cur["mag"], l0, l1, n) <= 6000:
+                    return pairs
+            return [[0, 1]]
+
+        def new_warmup(scantime):
+            w = rng.randint(0, wmax)
+            seconds = w * scantime
+            return seconds if warmup_samples(seconds, scantime) <= wmax else 0.0
+
+        steps = [{"change": None}] if rng.random() < 0.85 else []
+        for _ in range(rng.choice([1, 1, 2, 3])):
+            op = rng.choice(["pairs", "pairs", "equal", "equal", "warmup", "pairs+warmup", "triple", "replace"])
+            if op == "pairs":
+                ch = {"op": "set", "pairs": new_pairs(False)}
+            elif op == "equal":
+                ch = {"op": "equal", "pairs": new_pairs(True)}
+            elif op == "warmup":
+                ch = {"op": "set", "warmup": new_warmup(cur["scantime"])}
+            elif op == "pairs+warmup":
+                ch = {"op": "set", "pairs": new_pairs(False), "warmup": new_warmup(cur["scantime"])}
+            elif op == "replace":
+                ch = {"op": "replace", "pairs": new_pairs(rng.random() < 0.3), "warmup": new_warmup(cur["scantime"])}
+            else:  # spot size, speed and scan time in place (another float-integer magnification <= the old one), then the warm-up
+                M2 = rng.randint(1, M)
+                spotsize, speed, scantime = int_mag_triple(rng, M2)
+                if srr_vox(cur["pairs"], M2, l0, l1, n) > 6000:
+                    ch = {"op": "set", "warmup": new_warmup(cur["scantime"])}
+                else:
+                    ch = {"op": "triple", "spotsize": spotsize, "speed": speed, "scantime": scantime, "mag": M2, "warmup": new_warmup(scantime)}
+            cur.update({k: v for k, v in ch.items() if k != "op"})
+            steps.append({"change": ch})
+        return {"kind": "srr_hist", **base, "steps": steps}
+
     def generate(self, rng, tier):
         t = rng.random()
-        if t < 0.22:
+        if t < 0.17:
+            return self.gen_hist(rng, tier)
+        if t < 0.23:
+            return self.gen_srr_hist(rng)
+        if t < 0.42:
             return {"kind": "srr", **gen_srr(rng, max_vox=6000), "roundtrip": rng.random() < 0.3}
         cfg = gen_cfg(rng)
         rows, cols = self.gen_shape(rng, tier)
-        if t < 0.42:
+        if t < 0.58:
             return {"kind": "extent", "cfg": cfg, "rows": rows, "cols": cols}
         nel = rng.choice([1, 1, 2])
         if rows * cols > 400_000:
@@ -294,6 +439,51 @@ class C10(Prop):
                     for cols in range(1, 7):
                         for mode in ("mul", "exact", "up", "down"):
                             yield {"kind": "get_all", "cfg": cfg, "rows": rows, "cols": cols, "nel": 1, "element": 0, "mode": mode}
+        # histories on one object: observe, change configuration or shape, observe again
+        E, O = {"o": "extent"}, {"o": "own"}
+
+        def R(r0, r1, c0, c1):
+            return {"o": "rect", "rect": [r0, r1, c0, c1], "modes": ["mul"] * 4}
+
+        def hist(cfg, rows, cols, *steps, nel=1):
+            return {"kind": "hist", "cfg": cfg, "rows": rows, "cols": cols, "nel": nel,
+                    "steps": [{"change": ch, "obs": list(obs), "element": 0} for ch, obs in steps]}
+
+        def setc(**attrs):
+            return {"op": "set", "attrs": attrs}
+
+        ras = {"kind": "raster", "spotsize": 0.5, "speed": 0.1, "scantime": 3.0}
+        spt = {"kind": "spot", "sx": 10.0, "sy": 25.0}
+        yield hist(ras, 7, 11, (None, [E, O, R(1, 5, 2, 9)]), (setc(scantime=6.0), [E, O, R(1, 5, 2, 9)]),
+                   (setc(spotsize=20.0, speed=35.0), [E, O, R(1, 5, 2, 9)]))
+        yield hist(spt, 7, 11, (None, [E, O, R(1, 5, 2, 9)]), (setc(sy=40.0), [E, O, R(1, 5, 2, 9)]), (setc(sx=0.1 * 3), [E, O]))
+        for first in ([E], [O]):  # the first read of the extent is direct, or inside get(extent=own extent)
+            for second in ([E], [O]):
+                for k, v in (("spotsize", 0.1 * 3), ("speed", 33.3), ("scantime", 0.007)):
+                    yield hist(cfgs[0], 5, 3, (None, first), (setc(**{k: v}), second))
+                for k, v in (("sx", 33.3 * 1.3), ("sy", 1 / 3)):
+                    yield hist(cfgs[2], 3, 5, (None, first), (setc(**{k: v}), second))
+        for cfg in (ras, spt):
+            other = cfgs[2] if cfg["kind"] == "raster" else cfgs[1]
+            same = {**cfg, "spotsize": 2.2} if cfg["kind"] == "raster" else {**cfg, "sx": 2.2}
+            yield hist(cfg, 4, 6, (None, [E, O]), ({"op": "replace", "cfg": same}, [E, O, R(1, 3, 2, 6)]),
+                       ({"op": "replace", "cfg": other}, [E, O, R(0, 4, 5, 6)]), ({"op": "replace", "cfg": cfg}, [E, O]))
+            yield hist(cfg, 4, 6, (None, [E, O]), ({"op": "data", "rows": 6, "cols": 4}, [E, O, R(4, 6, 0, 4)]),
+                       ({"op": "data", "rows": 1, "cols": 9}, [O, E]), ({"op": "data", "rows": 4000, "cols": 2}, [O, E]), nel=2)
+            yield hist(cfg, 3, 3, (None, [E]), ({"op": "add"}, [E, O]), ({"op": "remove", "index": 0}, [O, E]), nel=2)
+            # edited and edited back; edited without a read in between; edited after the object was replaced
+            k = "scantime" if cfg["kind"] == "raster" else "sy"
+            yield hist(cfg, 2, 9, (None, [E]), (setc(**{k: 0.7}), [E, O]), (setc(**{k: cfg[k]}), [E, O]))
+            yield hist(cfg, 2, 9, (None, [O]), (setc(**{k: 0.7}), []), (setc(**{k: 1.3}), [O, E]))
+            yield hist(cfg, 2, 9, (None, [E]), ({"op": "replace", "cfg": same}, [E]), (setc(**{k: 0.7}), [E, O]))
+            yield hist(cfg, 2, 9, (None, [E]), ({"op": "data", "rows": 9, "cols": 2}, [E]), (setc(**{k: 0.7}), [E, O]))
+        base = {"spotsize": 70.0, "speed": 140.0, "scantime": 0.25, "warmup": 0.5, "pairs": [[0, 2], [1, 2]],
+                "mag": 2, "n": 2, "shapes": [[2, 12], [3, 10]], "short": None, "wmode": "exact"}
+        yield {"kind": "srr_hist", **base, "steps": [
+            {"change": None}, {"change": {"op": "set", "pairs": [[0, 3], [1, 3], [2, 3]]}},
+            {"change": {"op": "equal", "pairs": [[0, 4], [1, 4], [2, 4], [3, 4]]}}, {"change": {"op": "set", "warmup": 0.0}},
+            {"change": {"op": "triple", "spotsize": 35.0, "speed": 140.0, "scantime": 0.25, "mag": 1, "warmup": 0.25}},
+            {"change": {"op": "replace", "pairs": [[1, 2]], "warmup": 0.5}}, {"change": {"op": "set", "pairs": [[0, 1]], "warmup": 0.75}}]}
         # the witness of the repaired SRR shape defect: layers 4 x 20 and 6 x 20
         yield {"kind": "srr", "spotsize": 35.0, "speed": 140.0, "scantime": 0.25, "warmup": 0.0, "pairs": [[0, 2], [1, 2]],
                "mag": 1, "n": 2, "shapes": [[4, 20], [6, 20]], "short": None, "wmode": "exact"}
@@ -315,15 +505,12 @@ class C10(Prop):
         if not tokens:
             data = np.empty((rows, cols), dtype=[(n, np.uint8) for n in names])
         else:
-            data = np.empty((rows, cols), dtype=[(n, np.float64) for n in names])
-            base = np.arange(1, rows * cols + 1, dtype=np.float64).reshape(rows, cols)
-            for k, n in enumerate(names):
-                data[n] = base + k * rows * cols
+            data = token_data(rows, cols, list(zip(names, range(nel))))
         return Laser(data, config=make_cfg(cfg)), names
 
-    def eval_extent(self, case, ctx):
-        cfg, rows, cols = case["cfg"], case["rows"], case["cols"]
-        laser, _ = self.make_laser(cfg, rows, cols, 1, tokens=False)
+    def observe_extent(self, laser, cfg, rows, cols, ctx):
+        """pixel sizes, Laser.extent, data_extent and their array round trip of the laser AS IT IS NOW against the
+        driver's model/spec for `cfg`, `rows`, `cols` -> (impl, model, spec, spec_ok, model_ok)"""
         conf = laser.config
         rt = type(conf).from_array(conf.to_array())
         impl = {"pw": float(conf.get_pixel_width()), "ph": float(conf.get_pixel_height()),
@@ -343,102 +530,113 @@ class C10(Prop):
         spec_ok = agrees(s["pw"], s["ph"], s["extent"])
         model_ok = (agrees(m["pw"], m["ph"], m["extent"]) and m["roundtrip"] is not None
                     and ext_close(impl["roundtrip"]["extent"], m["roundtrip"]["extent"]) and m["data_extent"] == m["extent"])
+        return impl, m, s, spec_ok, model_ok
+
+    def eval_extent(self, case, ctx):
+        cfg, rows, cols = case["cfg"], case["rows"], case["cols"]
+        laser, _ = self.make_laser(cfg, rows, cols, 1, tokens=False)
+        impl, m, s, spec_ok, model_ok = self.observe_extent(laser, cfg, rows, cols, ctx)
         feats = {"extent", cfg["kind"], "side>=1000" if max(rows, cols) >= 1000 else "side<1000"}
         if min(rows, cols) == 1:
             feats.add("side=1")
         return outcome(impl, m, s, spec_ok=spec_ok, model_ok=model_ok, features=feats)
 
-    def read(self, laser, names, element, ext, cols, rows, full):
-        el = None if element is None else names[element]
+    def read(self, laser, fields, element, ext, cols, rows, full):
+        """`fields`: [(name, k)] of the token-carrying fields (pixel (r, c) of field k holds r*cols + c + 1 + k*rows*cols);
+        `element`: index into `fields`, or None for the structured read"""
+        el = None if element is None else fields[element][0]
         try:
             res = laser.get(el, extent=ext)
         except Exception as e:
             return {"raises": type(e).__name__, "msg": str(e)[:200]}
         if el is None:
-            parts = [summarize(res[n], cols, k * rows * cols, full) for k, n in enumerate(names)]
+            parts = [summarize(res[n], cols, k * rows * cols, full) for n, k in fields]
             return parts[0] if all(canon_eq(p, parts[0]) for p in parts) else {"fields_differ": parts}
-        return summarize(res, cols, element * rows * cols, full)
+        return summarize(res, cols, fields[element][1] * rows * cols, full)
+
+    def observe_get(self, laser, fields, element, cfg, rows, cols, rect, modes, full, ctx, feats):
+        """one read of the region bounded by the pixel boundaries `rect` = [r0, r1, c0, c1] of the laser AS IT IS NOW
+        (`modes`: how the four float bounds are computed; "own" = the laser's own reported extent) against the driver's
+        model/spec for `cfg`, `rows`, `cols` -> (impl, model, spec, undetermined, hyp)"""
+        r0, r1, c0, c1 = rect
+        if modes[0] == "own":
+            ext = tuple(float(v) for v in laser.extent)
+        else:
+            px, py = laser.config.get_pixel_width(), laser.config.get_pixel_height()
+            pw_exact = Fraction(cfg["speed"]) * Fraction(cfg["scantime"]) if cfg["kind"] == "raster" else Fraction(cfg["sx"])
+            ph_exact = Fraction(cfg["spotsize"]) if cfg["kind"] == "raster" else Fraction(cfg["sy"])
+            ext = (bound(modes[0], c0, px, pw_exact), bound(modes[1], c1, px, pw_exact),
+                   bound(modes[2], r0, py, ph_exact), bound(modes[3], r1, py, ph_exact))
+        impl = self.read(laser, fields, element, ext, cols, rows, full)
+        rep = ctx.driver.call("c10.get", cfg=cfg_json(cfg), rows=rows, cols=cols, full=full,
+                              extent=[rat(v) for v in ext], rect=rect)
+        # margins are in units of 1e-6 of the quotient; 1e-3 there = 1e-9 of the quotient
+        undet = min(unrat(mg) for mg in rep["margins"]) < Fraction(1, 1000)
+        hyp = True
+        for q, k in zip(rep["quotients"], (c0, c1, r0, r1)):
+            d = unrat(q) - k
+            if abs(d) >= Fraction(5, 10**7):
+                hyp = False
+            if d < 0:
+                feats.add("quotient-below-boundary")
+            elif d > 0:
+                feats.add("quotient-above-boundary")
+            else:
+                feats.add("quotient-exact")
+        if rep["indices_old"] != rep["indices"]:
+            feats.add("plain-truncation-would-differ")
+        if rect == [0, rows, 0, cols]:
+            feats.add("own-extent")
+        if r0 == r1 or c0 == c1:
+            feats.add("empty-rect")
+        if (r1 == rows and r0 < r1) or (c1 == cols and c0 < c1):
+            feats.add("touches-last")
+        return impl, rep["model"], rep["spec"], undet, hyp
 
     def eval_get(self, case, ctx, rects):
         cfg, rows, cols, nel = case["cfg"], case["rows"], case["cols"], case["nel"]
         laser, names = self.make_laser(cfg, rows, cols, nel)
-        px, py = laser.config.get_pixel_width(), laser.config.get_pixel_height()
-        pw_exact = Fraction(cfg["speed"]) * Fraction(cfg["scantime"]) if cfg["kind"] == "raster" else Fraction(cfg["sx"])
-        ph_exact = Fraction(cfg["spotsize"]) if cfg["kind"] == "raster" else Fraction(cfg["sy"])
+        fields = list(zip(names, range(nel)))
         full = rows * cols <= 64
         impl, model, spec = [], [], []
         feats = {"get", cfg["kind"], "structured-read" if case["element"] is None else "element-read"}
         undet = False
         hyp = True
-        own_ext = laser.extent
         for rect, modes in rects:
-            r0, r1, c0, c1 = rect
-            if modes[0] == "own":
-                ext = tuple(float(v) for v in own_ext)
-            else:
-                ext = (bound(modes[0], c0, px, pw_exact), bound(modes[1], c1, px, pw_exact),
-                       bound(modes[2], r0, py, ph_exact), bound(modes[3], r1, py, ph_exact))
-            impl.append(self.read(laser, names, case["element"], ext, cols, rows, full))
-            rep = ctx.driver.call("c10.get", cfg=cfg_json(cfg), rows=rows, cols=cols, full=full,
-                                  extent=[rat(v) for v in ext], rect=rect)
-            model.append(rep["model"])
-            spec.append(rep["spec"])
-            # margins are in units of 1e-6 of the quotient; 1e-3 there = 1e-9 of the quotient
-            if min(unrat(mg) for mg in rep["margins"]) < Fraction(1, 1000):
-                undet = True
-            for q, k in zip(rep["quotients"], (c0, c1, r0, r1)):
-                d = unrat(q) - k
-                if abs(d) >= Fraction(5, 10**7):
-                    hyp = False
-                if d < 0:
-                    feats.add("quotient-below-boundary")
-                elif d > 0:
-                    feats.add("quotient-above-boundary")
-                else:
-                    feats.add("quotient-exact")
-            if rep["indices_old"] != rep["indices"]:
-                feats.add("plain-truncation-would-differ")
-            if rect == [0, rows, 0, cols]:
-                feats.add("own-extent")
-            if r0 == r1 or c0 == c1:
-                feats.add("empty-rect")
-            if (r1 == rows and r0 < r1) or (c1 == cols and c0 < c1):
-                feats.add("touches-last")
+            i, m, s, u, h = self.observe_get(laser, fields, case["element"], cfg, rows, cols, rect, modes, full, ctx, feats)
+            impl.append(i)
+            model.append(m)
+            spec.append(s)
+            undet = undet or u
+            hyp = hyp and h
         feats.add("side>=1000" if max(rows, cols) >= 1000 else ("side<=8" if max(rows, cols) <= 8 else "side 9..999"))
         return outcome(impl, model, spec, undetermined=undet, hyp=hyp, features=feats)
 
-    def eval_srr(self, case, ctx):
-        from pewlib.srr.srr import SRRLaser
-
-        shapes = stack_shapes(case)
+    def srr_layers(self, shapes):
         layers = []
-        for (l, s) in shapes:
-            a = np.empty((l, s), dtype=[("A", np.float64)])
-            a["A"] = np.arange(1, l * s + 1, dtype=np.float64).reshape(l, s)
+        for (l, k) in shapes:
+            a = np.empty((l, k), dtype=[("A", np.float64)])
+            a["A"] = np.arange(1, l * k + 1, dtype=np.float64).reshape(l, k)
             layers.append(a)
-        from pewlib.srr.config import SRRConfig
+        return layers
 
-        cfg0 = make_srr_cfg(case)
-        if case.get("roundtrip"):  # the same relation must hold for the configuration after its array round trip
-            cfg0 = SRRConfig.from_array(cfg0.to_array())
-        laser = SRRLaser(layers, config=cfg0)
+    def observe_srr(self, laser, cur, shapes, ctx, feats):
+        """extent / reconstructed pixel size of the SRR laser AS IT IS NOW against the shape of the array it reconstructs
+        now; `cur` = the abstract configuration it holds now -> (impl, model, spec, reconstruction raised)"""
         ext = [float(v) for v in laser.extent]
         px, py = float(laser.config.get_pixel_width()), float(laser.config.get_pixel_height())
-        mag = float_mag(case)
-        if mag != float(case["mag"]):
+        mag = float_mag(cur)
+        if mag != float(cur["mag"]):
             raise core.InternalError("generator: magnification is not the intended float integer")
-        rep = ctx.driver.call("c10.srr", cfg=srr_cfg_json(case), mag=rat(mag), shapes=shapes, observed=[rat(v) for v in ext + [px, py]])
-        feats = {"srr", f"mag{case['mag']}", f"layers{case['n']}", "warmup>0" if rep["warmup"] > 0 else "warmup=0",
-                 "non-square" if shapes[0][0] != shapes[1][0] else "square", "offset>0" if max(rep["offs"]) > 0 else "offset=0",
-                 f"spp{'>1' if rep['spp'] > 1 else '=1'}"}
-        if case.get("roundtrip"):
-            feats.add("srr-config-after-roundtrip")
+        rep = ctx.driver.call("c10.srr", cfg=srr_cfg_json(cur), mag=rat(mag), shapes=shapes, observed=[rat(v) for v in ext + [px, py]])
+        feats |= {"srr", f"mag{cur['mag']}", f"layers{len(shapes)}", "warmup>0" if rep["warmup"] > 0 else "warmup=0",
+                  "non-square" if shapes[0][0] != shapes[1][0] else "square", "offset>0" if max(rep["offs"]) > 0 else "offset=0",
+                  f"spp{'>1' if rep['spp'] > 1 else '=1'}"}
         try:
             recon = laser.get()
             rshape = [int(recon.shape[0]), int(recon.shape[1])]
         except Exception as e:  # the property speaks of the reconstructed array; success is C09's claim
-            impl = {"raises": type(e).__name__, "msg": str(e)[:200]}
-            return outcome(impl, None, None, spec_ok=True, model_ok=True, undetermined=True, features=feats)
+            return {"raises": type(e).__name__, "msg": str(e)[:200]}, None, None, True
         if rep["observed_ratio"] is None:
             impl = {"cols_from_extent": None, "rows_from_extent": None}
         else:
@@ -451,7 +649,179 @@ class C10(Prop):
         else:
             mr = [unrat(v) for v in rep["model_ratio"]]
             model = {"cols_from_extent": near_int(mr[0]), "rows_from_extent": near_int(mr[1])}
+        return impl, model, spec, False
+
+    def eval_srr(self, case, ctx):
+        from pewlib.srr.config import SRRConfig
+        from pewlib.srr.srr import SRRLaser
+
+        shapes = stack_shapes(case)
+        cfg0 = make_srr_cfg(case)
+        if case.get("roundtrip"):  # the same relation must hold for the configuration after its array round trip
+            cfg0 = SRRConfig.from_array(cfg0.to_array())
+        laser = SRRLaser(self.srr_layers(shapes), config=cfg0)
+        feats = set()
+        if case.get("roundtrip"):
+            feats.add("srr-config-after-roundtrip")
+        impl, model, spec, raised = self.observe_srr(laser, case, shapes, ctx, feats)
+        if raised:
+            return outcome(impl, None, None, spec_ok=True, model_ok=True, undetermined=True, features=feats)
         return outcome(impl, model, spec, features=feats)
+
+    def eval_hist(self, case, ctx):
+        """a history on ONE Laser object: every observation is compared with the driver's model/spec for the
+        configuration and shape the object holds at that moment"""
+        from pewlib.laser import Laser
+
+        cfg = dict(case["cfg"])
+        rows, cols = case["rows"], case["cols"]
+        fields = [("A", 0), ("B", 1)][:case["nel"]]
+        nextk = len(fields)
+        laser = Laser(token_data(rows, cols, fields), config=make_cfg(cfg))
+        impl, model, spec = [], [], []
+        spec_ok = model_ok = hyp = True
+        undet = False
+        feats = {"history"}
+        read_before = False  # Laser.extent of this object has been read
+        pending = set()  # changes made after such a read and not yet followed by another read of Laser.extent
+        nobs = 0
+        for step in case["steps"]:
+            ch = step.get("change")
+            tag = None
+            if ch is None:
+                pass
+            elif ch["op"] == "set":  # in place, on the configuration object the laser holds
+                done = []
+                for k in sorted(ch["attrs"]):
+                    if k in ATTRS[cfg["kind"]]:  # (a shrunk history may name attributes of the other kind: ignored)
+                        setattr(laser.config, ATTRS[cfg["kind"]][k], ch["attrs"][k])
+                        cfg[k] = ch["attrs"][k]
+                        done.append(k)
+                if done:
+                    tag = "in-place-edit"
+                    feats.add("in-place-edit of " + ("several attributes" if len(done) > 1 else done[0]))
+            elif ch["op"] == "replace":
+                if ch["cfg"]["kind"] != cfg["kind"]:
+                    feats.add("config-replaced: other kind")
+                cfg = dict(ch["cfg"])
+                laser.config = make_cfg(cfg)
+                tag = "config-replaced"
+            elif ch["op"] == "data":
+                if (ch["rows"], ch["cols"]) != (rows, cols):
+                    tag = "data-assigned: other shape"
+                    if ch["rows"] * ch["cols"] == rows * cols:
+                        feats.add("data-assigned: other shape, same number of pixels")
+                else:
+                    tag = "data-assigned: same shape"
+                rows, cols = ch["rows"], ch["cols"]
+                laser.data = token_data(rows, cols, fields)
+            elif ch["op"] == "add":
+                name = f"E{nextk}"
+                laser.add(name, token_data(rows, cols, [(name, nextk)])[name])
+                fields = fields + [(name, nextk)]
+                nextk += 1
+                tag = "element-added"
+            elif ch["op"] == "remove":
+                if len(fields) > 1:
+                    gone = fields[ch["index"] % len(fields)]
+                    laser.remove(gone[0])
+                    fields = [f for f in fields if f != gone]
+                    tag = "element-removed"
+            else:
+                raise core.InternalError(f"unknown change {ch}")
+            if tag is not None:
+                feats.add(tag)
+                if read_before:
+                    pending.add(tag)
+            element = None if step.get("element") is None else step["element"] % len(fields)
+            full = rows * cols <= 64
+            for ob in step["obs"]:
+                nobs += 1
+                if ob["o"] == "extent":
+                    i, m, s, sok, mok = self.observe_extent(laser, cfg, rows, cols, ctx)
+                    spec_ok, model_ok = spec_ok and sok, model_ok and mok
+                else:
+                    if ob["o"] == "own":
+                        rect, modes = [0, rows, 0, cols], ["own"] * 4
+                    else:  # a rectangle drawn for another shape (shrunk history) is clipped to the image
+                        r0, r1, c0, c1 = ob["rect"]
+                        rect, modes = [min(r0, rows), min(r1, rows), min(c0, cols), min(c1, cols)], ob["modes"]
+                    i, m, s, u, h = self.observe_get(laser, fields, element, cfg, rows, cols, rect, modes, full, ctx, feats)
+                    undet, hyp = undet or u, hyp and h
+                    spec_ok, model_ok = spec_ok and canon_eq(i, s), model_ok and canon_eq(i, m)
+                    feats.add("structured-read" if element is None else "element-read")
+                impl.append(i)
+                model.append(m)
+                spec.append(s)
+                if ob["o"] in ("extent", "own"):
+                    for tg in pending:
+                        feats.add(f"extent read before and after: {tg}")
+                    pending = set()
+                    read_before = True
+                elif tag is not None:
+                    feats.add(f"aligned read after: {tag}")
+        if nobs == 0:
+            feats = set()
+        else:
+            feats.add(cfg["kind"])
+        return outcome(impl, model, spec, spec_ok=spec_ok, model_ok=model_ok, undetermined=undet, hyp=hyp, features=feats)
+
+    def eval_srr_hist(self, case, ctx):
+        """a history on ONE SRRLaser object: configuration edited in place (offsets, warm-up, spot size/speed/scan time)
+        or replaced; after each change extent / pixel size is compared with the shape reconstructed then"""
+        from pewlib.srr.srr import SRRLaser
+
+        shapes = stack_shapes(case)
+        cur = {k: case[k] for k in ("spotsize", "speed", "scantime", "warmup", "pairs", "mag")}
+        laser = SRRLaser(self.srr_layers(shapes), config=make_srr_cfg(cur))
+        impl, model, spec = [], [], []
+        feats = {"srr-history"}
+        ok = 0
+        for idx, step in enumerate(case["steps"]):
+            ch = step.get("change")
+            if ch is None:
+                tag = None
+            elif ch["op"] == "set":
+                conf = laser.config
+                if "pairs" in ch:
+                    conf.subpixel_offsets = [tuple(p) for p in ch["pairs"]]
+                if "warmup" in ch:
+                    conf.warmup = ch["warmup"]
+                tag = "in-place edit of " + " and ".join(k for k in ("pairs", "warmup") if k in ch)
+            elif ch["op"] == "equal":
+                w = len(ch["pairs"])
+                if ch["pairs"] != [[i, w] for i in range(w)]:
+                    raise core.InternalError("equal offsets: pairs must be [[0, w], .., [w-1, w]]")
+                laser.config.set_equal_subpixel_offsets(w)
+                tag = "in-place set_equal_subpixel_offsets"
+            elif ch["op"] == "triple":
+                conf = laser.config
+                conf.spotsize, conf.speed, conf.scantime = ch["spotsize"], ch["speed"], ch["scantime"]
+                conf.warmup = ch["warmup"]
+                tag = "in-place edit of spot size, speed, scan time"
+                if ch["mag"] != cur["mag"]:
+                    feats.add("srr-history: magnification changed")
+            elif ch["op"] == "replace":
+                laser.config = make_srr_cfg({**cur, **{k: v for k, v in ch.items() if k != "op"}})
+                tag = "config replaced"
+            else:
+                raise core.InternalError(f"unknown change {ch}")
+            if ch is not None:
+                cur.update({k: v for k, v in ch.items() if k != "op"})
+            if tag is not None and idx > 0:
+                feats.add("srr-history: " + tag)
+            if len(cur["pairs"]) > len(shapes):
+                feats.add("srr-history: more offsets than layers")
+            i, m, s, raised = self.observe_srr(laser, cur, shapes, ctx, feats)
+            if raised:  # nothing reconstructed at this step: nothing the property relates the extent to
+                i = m = s = {"no reconstruction": i}
+                feats.add("srr-history: a step without reconstruction")
+            else:
+                ok += 1
+            impl.append(i)
+            model.append(m)
+            spec.append(s)
+        return outcome(impl, model, spec, undetermined=(ok == 0), features=feats)
 
     def evaluate(self, case, ctx):
         k = case["kind"]
@@ -469,6 +839,10 @@ class C10(Prop):
             return out
         if k == "srr":
             return self.eval_srr(case, ctx)
+        if k == "hist":
+            return self.eval_hist(case, ctx)
+        if k == "srr_hist":
+            return self.eval_srr_hist(case, ctx)
         raise core.InternalError(f"unknown case kind {k}")
 
     def shrink(self, case):
@@ -493,6 +867,39 @@ class C10(Prop):
                                 yield {**case, "kind": "get", "rect": [r0, r1, c0, c1], "modes": [case["mode"]] * 4}
             if case.get("nel", 1) > 1:
                 yield {**case, "nel": 1, "element": 0}
+        elif k == "hist":
+            steps = case["steps"]
+            for i in range(len(steps)):  # fewer steps (the state is followed by evaluate, so any sub-history is a valid case)
+                yield {**case, "steps": steps[:i] + steps[i + 1:]}
+            for i, st in enumerate(steps):
+                def with_step(new):
+                    return {**case, "steps": steps[:i] + [new] + steps[i + 1:]}
+
+                if len(st["obs"]) > 1:
+                    for j in range(len(st["obs"])):
+                        yield with_step({**st, "obs": st["obs"][:j] + st["obs"][j + 1:]})
+                ch = st.get("change")
+                if ch is not None:
+                    yield with_step({**st, "change": None})
+                    if ch["op"] == "set" and len(ch["attrs"]) > 1:
+                        for a in sorted(ch["attrs"]):
+                            yield with_step({**st, "change": {"op": "set", "attrs": {b: v for b, v in ch["attrs"].items() if b != a}}})
+                    if ch["op"] == "data":
+                        for nr, nc in ((ch["rows"] // 2, ch["cols"]), (ch["rows"], ch["cols"] // 2)):
+                            if nr >= 1 and nc >= 1:
+                                yield with_step({**st, "change": {"op": "data", "rows": nr, "cols": nc}})
+            rows, cols = case["rows"], case["cols"]
+            for nr, nc in ((rows // 2, cols), (rows, cols // 2), (rows - 1, cols), (rows, cols - 1)):
+                if nr >= 1 and nc >= 1 and (nr, nc) != (rows, cols):
+                    yield {**case, "rows": nr, "cols": nc}
+            if case["nel"] > 1:
+                yield {**case, "nel": 1}
+        elif k == "srr_hist":
+            steps = case["steps"]
+            for i in range(len(steps)):
+                yield {**case, "steps": steps[:i] + steps[i + 1:]}
+            if case["n"] > 2:
+                yield {**case, "n": case["n"] - 1}
         elif k == "srr":
             if case["n"] > 2:
                 yield {**case, "n": case["n"] - 1}
